@@ -110,8 +110,23 @@ impl Model for TwinModel {
                 }
                 _ => false,
             };
+            // the second listed reversal finding: the closed leg's equity is positive but smaller than the fees of the
+            // order, and the new leg needs no fresh money (cw20 pulled the fees and nothing else): the native path nets the
+            // refund against the fees (required = fees - equity) and refuses the cw20 amount as "excessive"
+            let equity = match (a, &p0) {
+                (Act::Open { t, v, .. }, Some(p)) => {
+                    let o = so_c.pre_t(*v, t).out_spot;
+                    if o >= 0 { p.margin.u128() as i128 + pnl_of(p, o) } else { -1 }
+                }
+                _ => -1,
+            };
+            let fpa = ctx.cw.fee_pool.to_string();
+            let fees_pulled: u128 = so_c.xfers.iter().filter(|x| x.pulled && x.from == caller && (x.to == fpa || x.to == ifa)).map(|x| x.amt).sum();
+            let nets_refund = equity > 0 && (equity as u128) < fees_pulled && pulled == fees_pulled;
             let (cls, refine) = if so_c.outcome.ok && kind == "open" && reversal && cls == "sent-funds" && refund_due && o_n.err.contains("insufficient") {
                 ("sent-funds".to_string(), "reversal-native-demands-more-than-cw20-pulls")
+            } else if so_c.outcome.ok && kind == "open" && reversal && cls == "sent-funds" && nets_refund && o_n.err.contains("excessive") {
+                ("sent-funds".to_string(), "reversal-native-nets-refund-against-fees")
             } else if so_c.outcome.ok && kind == "close" && fees && vault_short && cls == "transfer-failure" {
                 ("transfer-failure".to_string(), "fees-taken-from-short-vault")
             } else {
@@ -253,6 +268,13 @@ pub fn run_c13(tier: Tier) -> i32 {
                 ]);
             }
         }
+        // the history on which the thorough tier found the second reversal finding (equity of the closed leg positive
+        // but below the order's fees, remainder re-opened at high leverage), so that the quick tier meets it too
+        fam.push(vec![
+            Act::open("alice", true, SIZE_M.0, SIZE_M.1),
+            Act::open("alice", true, SIZE_L.0, SIZE_L.1),
+            Act::open("bob", false, SIZE_S.0, SIZE_S.1),
+        ]);
         let mut al = vec![];
         for (mg, l) in [SIZE_S, SIZE_M, (3 * D, 2 * D), SIZE_L] {
             for buy in [true, false] {
